@@ -1,6 +1,6 @@
 //! Worker process for the process-exclusion stream (C13): opens the database, records what it sees,
 //! commits a marker, holds the database for a while, closes.  Timestamps are CLOCK_MONOTONIC ns.
-//! usage: jharness proc <dbpath> <id> <pagesize> <logfile> <hold_ms> <start_delay_ms>
+//! usage: jharness proc <dbpath> <id> <pagesize> <logfile> <hold_ms> <start_delay_ms> [<grow: number of 4000-byte values> [<fifo: wait there once inside, before working>]]
 use crate::util::*;
 use jammdb::OpenOptions;
 use std::io::Write;
@@ -19,6 +19,7 @@ pub fn main(args: &[String]) {
     let mut log = std::fs::OpenOptions::new().create(true).append(true).open(&args[3]).expect("log");
     let hold_ms: u64 = args[4].parse().unwrap();
     let delay_ms: u64 = args[5].parse().unwrap();
+    let grow: usize = args.get(6).map(|s| s.parse().unwrap()).unwrap_or(0);
     std::thread::sleep(std::time::Duration::from_millis(delay_ms));
     writeln!(log, "{} open-called {}", id, now()).unwrap();
     let r = catch_unwind(AssertUnwindSafe(|| OpenOptions::new().pagesize(pagesize).num_pages(16).open(&path)));
@@ -34,6 +35,11 @@ pub fn main(args: &[String]) {
         }
     };
     writeln!(log, "{} open-returned {}", id, now()).unwrap();
+    if let Some(fifo) = args.get(7) {
+        // inside the database, nothing done yet: wait until the orchestrator releases us
+        std::fs::File::create(format!("{}.at", fifo)).expect("at");
+        let _ = std::fs::File::open(fifo); // blocks until somebody opens the fifo for writing
+    }
     let work = catch_unwind(AssertUnwindSafe(|| {
         let seen: Vec<String> = {
             let tx = db.tx(false).unwrap();
@@ -41,12 +47,27 @@ pub fn main(args: &[String]) {
                 Ok(b) => b.kv_pairs().map(|kv| String::from_utf8_lossy(kv.key()).to_string()).collect(),
                 Err(_) => Vec::new(),
             };
+            // walk everything an earlier holder may have written
+            if let Ok(g) = tx.get_bucket("growth") {
+                let mut n = 0usize;
+                for kv in g.kv_pairs() {
+                    n += kv.value().len();
+                }
+                std::hint::black_box(n);
+            }
             v
         };
         let tx = db.tx(true).unwrap();
         let b = tx.get_or_create_bucket("markers").unwrap();
         b.put(id.clone().into_bytes(), vec![1u8]).unwrap();
         drop(b);
+        if grow > 0 {
+            // make the commit grow the file well past its current size
+            let g = tx.get_or_create_bucket("growth").unwrap();
+            for i in 0..grow {
+                g.put(format!("{}-{:05}", id, i).into_bytes(), vec![(i % 251) as u8; 4000]).unwrap();
+            }
+        }
         let c = tx.commit();
         (seen, c.is_ok())
     }));
